@@ -169,8 +169,11 @@ pub fn exec_action(w: &Rc<World>, a: &Action) {
                     RK::BConst(a) => Some(*a),
                     _ => None,
                 };
+                // (an invalidated constant no longer counts as one)
+                let m = w.model.borrow();
+                let live = !m.nodes[x].invalid && !m.nodes[y].invalid;
                 match (konst(&nodes[x].rk), konst(&nodes[y].rk)) {
-                    (Some(a), Some(b)) => RK::Const(MV::P(a, b)),
+                    (Some(a), Some(b)) if live => RK::Const(MV::P(a, b)),
                     _ => RK::Zip { a: x, b: y },
                 }
             };
